@@ -125,36 +125,74 @@ theorem encode_bin_none {p : Packet} (h : isBinType p.type = true) (hd : p.data 
     encode dumps p = (encodeHdr p.type p.nsp p.id (some 0) ++ [], some []) := by
   simp [encode, h, hd]
 
-/-- the text frame decodes to the wire packet and announces the right number of attachments -/
-theorem decode_encode (hcls : AsciiCls cls)
-    (hrt : ∀ j, NoBin j = true → loads (dumps j) = .ok j)
-    (hstart : ∀ j, TopOK j = true → StartOK (dumps j) = true)
-    {p : Packet} (hwf : WF p = true) :
+theorem wire_data_plain {p : Packet} (h : isBinType p.type = false) : p.wire.data = p.data := by
+  simp [Packet.wire, h]
+
+theorem wire_data_bin {p : Packet} (h : isBinType p.type = true) :
+    p.wire.data = p.data.map (fun j => (decon j []).1) := by
+  simp [Packet.wire, h]
+
+/-- the text frame decodes to the wire packet and announces the right number of attachments.
+    The JSON layer enters only at the one value that is printed: the wire payload. -/
+theorem decode_encode (hcls : AsciiCls cls) {p : Packet}
+    (hrt : ∀ j, p.wire.data = some j → loads (dumps j) = .ok j)
+    (hstart : ∀ j, p.wire.data = some j → StartOK (dumps j) = true)
+    (hwf : WF p = true) :
     decode cls loads (encode dumps p).1 = .ok (p.wire, ((encode dumps p).2.getD []).length) := by
-  obtain ⟨hh, htop, _, hbin, hlen⟩ := wf_unpack hwf
-  obtain ⟨t, nsp, id, data⟩ := p
-  cases hb : isBinType t with
+  obtain ⟨hh, _, _, _, hlen⟩ := wf_unpack hwf
+  cases hb : isBinType p.type with
   | false =>
+    have hwd := wire_data_plain (p := p) (by simpa using hb)
     rw [encode_plain (by simpa using hb)]
-    simp only [Packet.wire, Packet.norm, hb, Option.getD_none, List.length_nil]
-    cases data with
-    | none => exact decode_hdr_nil hcls hh
-    | some j =>
-      simp only [hb, optAll, Bool.false_eq_true, false_or] at hbin htop
-      exact decode_hdr_json hcls hh (hstart j htop) (hrt j hbin)
-  | true =>
-    cases data with
+    cases hd : p.data with
     | none =>
-      rw [encode_bin_none (by simpa using hb) rfl]
-      simp only [Packet.wire, Packet.norm, hb, Option.getD_some, List.length_nil, if_true,
-        Option.map_none]
+      have : p.wire = ⟨p.type, normNs p.nsp, p.id, none⟩ := by
+        simp [Packet.wire, Packet.norm, hb, hd]
+      rw [this]; exact decode_hdr_nil hcls hh
+    | some j =>
+      have : p.wire = ⟨p.type, normNs p.nsp, p.id, some j⟩ := by
+        simp [Packet.wire, Packet.norm, hb, hd]
+      rw [this]
+      rw [hd] at hwd
+      exact decode_hdr_json hcls hh (hstart j hwd) (hrt j hwd)
+  | true =>
+    have hwd := wire_data_bin (p := p) (by simpa using hb)
+    cases hd : p.data with
+    | none =>
+      rw [encode_bin_none (by simpa using hb) hd]
+      have : p.wire = ⟨p.type, normNs p.nsp, p.id, none⟩ := by
+        simp [Packet.wire, Packet.norm, hb, hd]
+      rw [this]
       exact decode_hdr_nil hcls (wfHdr_natt hh (by decide))
     | some j =>
-      rw [encode_bin_some (by simpa using hb) rfl]
-      simp only [optAll, decide_eq_true_eq] at hlen htop
-      simp only [Packet.wire, Packet.norm, hb, Option.getD_some, if_true, Option.map_some]
-      exact decode_hdr_json hcls (wfHdr_natt hh hlen) (hstart _ (topOK_decon j [] htop))
-        (hrt _ (noBin_decon j []))
+      rw [encode_bin_some (by simpa using hb) hd]
+      rw [hd] at hlen hwd
+      simp only [optAll, decide_eq_true_eq] at hlen
+      have : p.wire = ⟨p.type, normNs p.nsp, p.id, some (decon j []).1⟩ := by
+        simp [Packet.wire, Packet.norm, hb, hd]
+      rw [this]
+      simp only [Option.getD_some]
+      exact decode_hdr_json hcls (wfHdr_natt hh hlen) (hstart _ hwd) (hrt _ hwd)
+
+/-- the global form of the two JSON hypotheses implies the pointwise one used above -/
+theorem wire_json_hyps {p : Packet} (hwf : WF p = true) {j : J} (h : p.wire.data = some j) :
+    NoBin j = true ∧ TopOK j = true := by
+  obtain ⟨_, htop, _, hbin, _⟩ := wf_unpack hwf
+  cases hb : isBinType p.type with
+  | false =>
+    rw [wire_data_plain (by simpa using hb)] at h
+    simp only [hb, Bool.false_eq_true, false_or] at hbin
+    rw [h] at hbin htop
+    exact ⟨hbin, htop⟩
+  | true =>
+    rw [wire_data_bin (by simpa using hb)] at h
+    cases hd : p.data with
+    | none => rw [hd] at h; cases h
+    | some j' =>
+      rw [hd] at h htop
+      simp only [Option.map_some, Option.some.injEq] at h
+      subst h
+      exact ⟨noBin_decon j' [], topOK_decon j' [] htop⟩
 
 /-- the attachments of a well-formed packet rebuild its payload -/
 theorem recon_wire {p : Packet} (hwf : WF p = true) {j : J} (hd : p.data = some j) :
